@@ -242,7 +242,7 @@ def optical(vc):
         vc.install(SB + "Sensor.isVisible", lambda self, *a: (True, E.VISIBLE) if base_ok else (False, E.LINE_OF_SIGHT))
         vc.install(OP + "@Sun", _NS(getPosition=lambda jd: np.array([1.5e8, 0.0, 0.0])))
         vc.install(OP + "@calculateIncidentSolarFlux", lambda a, b, c: flux)
-        vc.install(OP + "@calculatePhaseAngle", lambda *a: 0.3)
+        vc.install(OP + "@calculatePhaseAngle", lambda *a: (calls.__setitem__("phase", a), 0.3)[1])
         vc.install(OP + "@lambertianPhaseFunction", lambda x: 0.2)
         vc.install(OP + "@apparentVisualMagnitude", lambda *a: mag)
         vc.install(OP + "@checkGalacticExclusionZone", lambda v: (calls.__setitem__("gal", v), gal)[1])
@@ -267,6 +267,9 @@ def optical(vc):
         geom_ok = True
         if "gal" in calls:
             geom_ok = geom_ok and bool(np.allclose(calls["gal"], (tgt - host.eci_state)[:3]))
+        if "phase" in calls:  # phase angle at the TARGET between the Sun and the sensor: (emitter = Sun, reflector = target, observer = sensor)
+            geom_ok = geom_ok and bool(np.allclose(np.asarray(calls["phase"][0], dtype=float), [1.5e8, 0.0, 0.0])) \
+                and bool(np.allclose(np.asarray(calls["phase"][1], dtype=float), tgt[:3])) and bool(np.allclose(np.asarray(calls["phase"][2], dtype=float), host.eci_state[:3]))
         if "space" in calls:
             sun = np.array([1.5e8, 0.0, 0.0])
             to_sun = (sun - tgt[:3]) / np.linalg.norm(sun - tgt[:3])
@@ -379,6 +382,7 @@ def execute(vc):
 from pyvc.harness import share as _share  # noqa: E402
 from contracts import C14 as _C14  # noqa: E402,F401
 _share("C14", "masks", "C02")
+_share("C14", "los", "C02")
 
 
 FV = "resonaate.sensors.field_of_view:"
